@@ -163,6 +163,10 @@ class Interp:
         self.cuts = []                # (node, text) operations that cut through a symbolic field
         self.hazards = []             # (node, text) substring tests whose outcome depends on user text
         self.dtype_hazards = []      # stores of real values into buffers typed like a caller's container
+        self.replace_hazards = []    # (node, old, field, remaining count): str.replace may reach into user text
+        self.re_hazards = []         # (node, pattern, field, what, spelling): regex outcome depends on user text
+        from .absre import NumPolicy
+        self.num_policy = NumPolicy()
         self.files = {}               # file name -> list of abstract lines
         self.opaque_classes = {}      # class qual -> handler(interp, frame, args, kwargs)
         self.extrema = {}             # MAX{..}/MIN{..} atom -> list of argument values
@@ -1183,6 +1187,28 @@ class Frame:
         idx = self.ev(n.slice)
         if isinstance(base, ListV) and isinstance(idx, str):
             raise _RaisedExc(Raised('TypeError', n))
+        if isinstance(base, ListV) and isinstance(idx, ListV) and idx.items and \
+                all(isinstance(x, bool) for x in idx.items):
+            # boolean mask along the first axis
+            if len(idx) != len(base):
+                raise _RaisedExc(Raised('IndexError', n))
+            r = ListV([x for x, keep in zip(base.items, idx.items) if keep])
+            r.is_array = True
+            return r
+        if isinstance(base, ListV) and isinstance(idx, ListV) and len(idx) == 2 and \
+                isinstance(idx.items[0], SliceV) and idx.items[0].full and isinstance(idx.items[1], ListV) and \
+                all(isinstance(x, bool) for x in idx.items[1].items):
+            # a[:, mask]: boolean mask along the second axis
+            mask = idx.items[1].items
+            r = ListV([])
+            for row in base.items:
+                if not isinstance(row, ListV) or len(row) != len(mask):
+                    raise _RaisedExc(Raised('IndexError', n))
+                rr = ListV([x for x, keep in zip(row.items, mask) if keep])
+                rr.is_array = True
+                r.items.append(rr)
+            r.is_array = True
+            return r
         if isinstance(base, ListV) and isinstance(idx, ListV):
             cur = base
             for pos, ix in enumerate(idx.items):
@@ -1734,6 +1760,13 @@ def builtin_call(I, fr, name, args, kwargs, n):
             return C(abs(v.const_value()))
         raise Unsupported('abs of symbolic value', n)
     if name == 'sum':
+        v = args[0]
+        if isinstance(v, ListV) and v.items and all(isinstance(r_, ListV) for r_ in v.items):
+            # sum(matrix[, 0]): rows are added element by element (numpy arrays)
+            tot = args[1] if len(args) > 1 else C(0)
+            for r_ in v.items:
+                tot = I.binop('+', tot, r_)
+            return tot
         return I.np_sum(args[0])
     if name in ('any', 'all'):
         v = args[0]
@@ -1917,8 +1950,8 @@ def bound_native(I, fr, bn, args, kwargs, n):
         return C(r) if isinstance(r, int) and not isinstance(r, bool) else r
     if isinstance(b, str) and name == 'split' and all(isinstance(a, str) for a in args):
         return ListV(list(b.split(*args)))
-    if isinstance(b, str) and name == 'replace' and len(args) == 2 and all(isinstance(a, str) for a in args):
-        return b.replace(*args)
+    if isinstance(b, str) and name == 'replace' and len(args) in (2, 3) and all(isinstance(a, str) for a in args[:2]):
+        return b.replace(args[0], args[1], *([_as_int(args[2], n)] if len(args) == 3 else []))
     if isinstance(b, str) and name in ('startswith', 'endswith') and all(isinstance(a, str) for a in args):
         return getattr(b, name)(*args)
     real = dir(dict) if isinstance(b, DictV) else dir(list) if isinstance(b, ListV) and not \
@@ -1968,6 +2001,15 @@ def abstract_str_method(I, fr, b, name, args, kwargs, n):
         w_ = _as_int(args[0], n)
         pad = max(0, w_ - len(sb))
         return I.plain(sb + ' ' * pad) if name == 'ljust' else I.plain(SegStr.lit(' ' * pad) + sb)
+    if name in ('index', 'rindex') and len(args) == 1 and isinstance(args[0], (str, SegStr)):
+        from .absre import spell_plain
+        table = {}
+        hay = spell_plain(sb, I.num_policy, table)
+        needle = spell_plain(I.seg(args[0]), I.num_policy, table)
+        r = hay.find(needle) if name == 'index' else hay.rfind(needle)
+        if r < 0:
+            raise _RaisedExc(Raised('ValueError', n))
+        return C(r)
     if name == 'rfind' and args and isinstance(args[0], str):
         r = sb.rfind(args[0])
         if r is None:
@@ -1986,8 +2028,36 @@ def abstract_str_method(I, fr, b, name, args, kwargs, n):
                 return name == 'isdigit'
         I.hazards.append((n, '%s() of user-controlled text %r' % (name, sb)))
         return False
-    if name == 'replace' and len(args) == 2 and all(isinstance(a, str) for a in args):
-        return I.plain(sb.replace(args[0], args[1]))
+    if name == 'replace' and len(args) in (2, 3) and all(isinstance(a, str) and a not in I.sym_strings
+                                                          for a in args[:2]):
+        from .absre import grammar
+        old_, new_ = args[0], args[1]
+        left = _as_int(args[2], n) if len(args) == 3 else -1
+        out = []
+        for sg in sb.segs:
+            if sg.kind == 'lit':
+                if left == 0 or not old_:
+                    out.append(sg)
+                elif left < 0:
+                    out.append(Seg('lit', text=sg.text.replace(old_, new_)))
+                else:
+                    use = min(sg.text.count(old_), left)
+                    out.append(Seg('lit', text=sg.text.replace(old_, new_, use)))
+                    left -= use
+                continue
+            if left != 0 and old_:
+                if sg.cls == 'num':
+                    may = set(old_) <= set('0123456789+-.eE ')
+                else:
+                    g = grammar(sg)
+                    may = any(all(ch in g[p + i] for i, ch in enumerate(old_))
+                              for p in range(0, len(g) - len(old_) + 1))
+                if may:
+                    # an occurrence inside the user's text would be replaced as well: the result depends on how the
+                    # name is spelled (a digit of the name equal to the coefficient being stripped, ...)
+                    I.replace_hazards.append((n, old_, sg, left))
+            out.append(sg)
+        return I.plain(SegStr(out))
     if name == 'split' and len(args) == 1 and isinstance(args[0], str):
         return ListV([I.plain(x) for x in sb.split(args[0])])
     if name == 'splitlines':
@@ -2258,6 +2328,84 @@ def _re_findall(I, fr, args, kwargs, n):
     return ListV(out)
 
 
+def _re_generic(kind):
+    """re.<kind>(pattern literal, abstract string): see absre"""
+    def h(I, fr, args, kwargs, n):
+        from . import absre
+        pat = args[0] if args else kwargs.get('pattern')
+        repl = None
+        if kind == 'sub':
+            repl = args[1] if len(args) > 1 else kwargs.get('repl')
+            args = [args[0]] + list(args[2:])
+            if not isinstance(repl, str) or repl in I.sym_strings or '\\' in repl:
+                raise Unsupported('re.sub replacement is not a plain literal', n)
+        s_ = args[1] if len(args) > 1 else kwargs.get('string')
+        if not isinstance(pat, str) or pat in I.sym_strings:
+            raise Unsupported('regular expression is not a literal', n)
+        if not isinstance(s_, (str, SegStr)):
+            raise _RaisedExc(Raised('TypeError', n))
+        sb = I.seg(s_)
+        flags = 0
+        maxsplit = 0
+        if kind in ('split', 'sub'):
+            ms = args[2] if len(args) > 2 else kwargs.get('maxsplit' if kind == 'split' else 'count', C(0))
+            maxsplit = _as_int(ms, n)
+        try:
+            res = absre.run(kind, pat, sb, I.num_policy, flags, maxsplit)
+        except re.error:
+            raise _RaisedExc(Raised('re.error', n))
+        for fld, what, spelled in res.hazards:
+            I.re_hazards.append((n, pat, fld, what, spelled))
+        cuts = []
+
+        def lift(a, b):
+            if a < 0:
+                return None             # group did not participate
+            return I.plain(res.spelling.lift(a, b, cuts))
+        try:
+            if kind == 'split':
+                return ListV([lift(a, b) for _, a, b in res.spans])
+            if kind == 'sub':
+                out = SegStr()
+                for k_, (_, a, b) in enumerate(res.spans):
+                    if k_:
+                        out = out + repl
+                    out = out + res.spelling.lift(a, b, cuts)
+                return I.plain(out)
+            if kind == 'findall':
+                out = []
+                for it in res.spans:
+                    if it[0] == 'match':
+                        out.append(lift(it[1], it[2]))
+                    elif len(it) == 2:
+                        out.append(lift(*it[1]) or '')
+                    else:
+                        out.append(ListV([lift(a, b) or '' for a, b in it[1:]]))
+                return ListV(out)
+            if res.spans is None:
+                return None
+            groups = [lift(a, b) for a, b in res.spans]
+            mo = Obj('match', closed=True)
+
+            def group(I_, o, a, k):
+                if not a:
+                    return groups[0]
+                if len(a) == 1:
+                    return groups[_as_int(a[0], n)]
+                return ListV([groups[_as_int(x, n)] for x in a])
+            mo.opaque_methods['group'] = group
+            mo.opaque_methods['groups'] = lambda I_, o, a, k: ListV(groups[1:])
+            mo.opaque_methods['start'] = lambda I_, o, a, k: C(res.spans[_as_int(a[0], n) if a else 0][0])
+            mo.opaque_methods['end'] = lambda I_, o, a, k: C(res.spans[_as_int(a[0], n) if a else 0][1])
+            mo.opaque_methods['span'] = lambda I_, o, a, k: ListV([C(x) for x in
+                                                                   res.spans[_as_int(a[0], n) if a else 0]])
+            return mo
+        finally:
+            for fld, txt in cuts:
+                I.cuts.append((n, 're.%s(%r) cuts the printed value %r into %r' % (kind, pat, fld, txt)))
+    return h
+
+
 class CounterV(DictV):
     """collections.Counter with symbolic totals (non-positive totals are NOT dropped here)"""
 
@@ -2512,8 +2660,44 @@ def _np_squeeze(I, fr, args, kwargs, n):
     return v
 
 
+def _np_size(I, fr, args, kwargs, n):
+    a = args[0]
+    ax = args[1] if len(args) > 1 else kwargs.get('axis')
+    if not isinstance(a, ListV):
+        raise Unsupported('np.size operand', n)
+    if ax is None:
+        tot = 1
+        cur = a
+        while isinstance(cur, ListV):
+            tot *= len(cur)
+            if not cur.items:
+                break
+            cur = cur.items[0]
+        return C(tot)
+    k = _as_int(ax, n)
+    cur = a
+    for _ in range(k):
+        if not (isinstance(cur, ListV) and cur.items):
+            raise Unsupported('np.size along an axis of an empty array', n)
+        cur = cur.items[0]
+    if not isinstance(cur, ListV):
+        raise _RaisedExc(Raised('IndexError', n))
+    return C(len(cur))
+
+
 def _np_append(I, fr, args, kwargs, n):
     a, b = args[0], args[1]
+    ax = args[2] if len(args) > 2 else kwargs.get('axis')
+    if ax is not None and _as_int(ax, n) == 1 and isinstance(a, ListV) and isinstance(b, ListV):
+        if len(a) != len(b) or not all(isinstance(x, ListV) for x in a.items + b.items):
+            raise _RaisedExc(Raised('ValueError', n))
+        r = ListV([])
+        for ra, rb in zip(a.items, b.items):
+            row = ListV(ra.items + rb.items)
+            row.is_array = True
+            r.items.append(row)
+        r.is_array = True
+        return r
     if isinstance(a, ListV) and isinstance(b, ListV):
         r = ListV(a.items + b.items)
         r.is_array = True
@@ -2753,6 +2937,7 @@ NATIVE = {
     'numpy.sum': _np_sum,
     'numpy.prod': _np_prod,
     'numpy.append': _np_append,
+    'numpy.size': _np_size,
     'numpy.argmax': _np_argmax_any,
     'numpy.roots': _np_roots,
     'numpy.mean': _np_mean,
@@ -2763,8 +2948,12 @@ NATIVE = {
     'numpy.nanargmin': _arg_extremum('min'),
     'numpy.nanargmax': _arg_extremum('max'),
     'more_itertools.consecutive_groups': _consecutive_groups,
-    're.search': _re_search,
-    're.findall': _re_findall,
+    're.search': _re_generic('search'),
+    're.match': _re_generic('match'),
+    're.fullmatch': _re_generic('fullmatch'),
+    're.findall': _re_generic('findall'),
+    're.split': _re_generic('split'),
+    're.sub': _re_generic('sub'),
     'collections.Counter': _counter,
     'numpy.any': _np_anyall('any'),
     'numpy.all': _np_anyall('all'),
